@@ -428,6 +428,7 @@ type VideoOpts struct {
 	CRA             bool // H265: use CRA_NUT instead of IDR
 	BFramePos       int  // H264 B-frame stream: position in the GOP (RA must be position 0)
 	PrependAUD      bool
+	AV1Delimiter    bool // AV1: the temporal unit opens with a temporal delimiter OBU (as in any raw bitstream)
 	VP9ShowExisting bool // VP9: a show_existing_frame frame (a frame header that only names a buffered frame)
 }
 
@@ -470,6 +471,9 @@ func (b *Builder) Video(writeIdx int, pts int64, ntp time.Time, o VideoOpts) [][
 			data = append(data, append([]byte{byte(h265.NALUType_TRAIL_R) << 1, 1}, body...))
 		}
 	case AV1:
+		if o.AV1Delimiter {
+			data = append(data, []byte{2<<3 | 2, 0}) // OBU_TEMPORAL_DELIMITER, has_size_field, size 0
+		}
 		if o.ParamIdx >= 0 {
 			seq := b.Spec.ParamSets[o.ParamIdx].Seq
 			data = append(data, seq)
